@@ -25,7 +25,24 @@ def directed():
         dict(mk(0.25, 0.5, 0.0, [("doer", [Y(), Y(), Y(), Y(), Y(), Y()])]), ctor=True),                     # doers given at construction
         dict(mk(1.0, None, 0.0, [("doer", [Y(), Y(), Y(), R()])]), ctor=True, again=[{"limit": 1.5, "tyme": 0.0}]),  # complete, then limit-cut rerun
         dict(mk(0.25, 0.5, 0.0, [("func", [Y(), Y(), Y(), Y(), R("false")])]), again=[{"limit": None, "tyme": None}, {"limit": 5.0, "tyme": 3.0}]),
-    ]
+    ] + [_idle_always_extended(k) for k in ("func", "bound", "doergen")]
+
+
+def _idle_always_extended(kind):
+    """An always-DoDoer that has gone idle (done True while it keeps running) is extended at run time with doers
+    that return None, True, False in their first recur and one that outlives the limit: each flag is what that
+    doer returned, not the DoDoer's."""
+    Y = lambda: {"es": [], "out": ["y", None]}
+    R = lambda r: {"es": [], "out": ["r", r]}
+    return {"tock": 0.25, "limit": 2.5, "tyme": 0.0, "doers": [1, 3], "mode": "do", "broad": True, "defs": {
+        "1": {"kind": "nest", "tock": 0.0, "always": True, "kids": [2]},
+        "2": {"kind": "func", "script": [Y(), R("true")]},
+        "3": {"kind": "func", "script": [Y(), Y(), Y(), {"es": [["ext", 1, [4, 5, 6, 7]]], "out": ["y", None]}, Y(), Y(), R("true")]},
+        "4": {"kind": kind, "script": [Y(), R("none")]},
+        "5": {"kind": kind, "script": [Y(), R("true")]},
+        "6": {"kind": kind, "script": [Y(), R("false")]},
+        "7": {"kind": kind, "script": [Y() for _ in range(30)]},
+    }}
 
 
 def generate(rng, tier):
@@ -133,6 +150,16 @@ def _oracle_broad(case, obs):
     for i, k in ending.items():
         if k in ("Cease", "Abort") and dones.get(i) is True and i not in always:
             return f"doer {i}'s last lifecycle ended by {k} but its done is True"
+    # a leaf doer that ran one lifecycle and finished by itself reports exactly what it returned: True only
+    # for a truthy return value, never for None / nothing / False
+    ret = _returned(case, obs)
+    for i, r in ret.items():
+        if sum(1 for k, j, _ in tr if j == i and k == "Enter") != 1 or ending.get(i) != "Clean":
+            continue
+        if r in ("none", "false") and dones.get(i) is True:
+            return f"doer {i} finished by itself returning {r} but its done is True"
+        if r == "true" and dones.get(i) is not True:
+            return f"doer {i} finished by itself returning True but its done is {dones.get(i)}"
     for sid, lst, _ in obs["scheds"]:
         if dones.get(sid) is True and sid not in always:
             cut = [x for x in lst if ending.get(x) in ("Cease", "Abort", "open")]
